@@ -245,6 +245,18 @@ let sort_lines (ls:line list) : line list =
 
 let items_of_lines ls = List.map (fun l -> Msg (l, z_of_int 1)) ls
 
+(* the body save_to_file writes, as the printer's model (C10's print_message with the default options,
+   Save/LinesModel.v print_line) prints the saved lines: one hex text per line without its line feed,
+   sorted; cls = how many of the lines are in the class good_line_b of C12_roundtrip_tree_real_lines_partial
+   (informational: the harness prints cls=- and the field is not compared) *)
+let body_text (ls:line list) : string =
+  let one l = match print_line opts_default l with
+    | Some t -> let t' = (match List.rev t with _ :: r -> List.rev r | [] -> []) in hex_of_bytes t'
+    | None -> "NONE" in
+  if ls = [] then "-" else String.concat "|" (List.sort compare (List.map one ls))
+let cls_text (ls:line list) : string =
+  Printf.sprintf "%d/%d" (List.length (List.filter good_line_b ls)) (List.length ls)
+
 let parse_item (s:string) : item =
   match split_on ',' s with
   | ["j"] -> Junk
@@ -264,8 +276,8 @@ let () = each_line (fun line ->
       (match load_file ap fuel a (chars_of_string "app") f st0 with
        | None -> print_endline "NOFUEL"
        | Some (r, sb) ->
-         Printf.printf "%s%shdr=1 lines=%s ret=%s A=%s B=%s fresh=%s\n" (decl_mark a ap) (tree_mark tree a ap sa) (show_lines ls) (z_to_string r)
-           (dump a sa) (dump a sb) (show_lines (save_lines a st0)))
+         Printf.printf "%s%shdr=1 lines=%s ret=%s A=%s B=%s fresh=%s body=%s cls=%s\n" (decl_mark a ap) (tree_mark tree a ap sa) (show_lines ls) (z_to_string r)
+           (dump a sa) (dump a sb) (show_lines (save_lines a st0)) (body_text ls) (cls_text ls))
     | "perm" :: tree :: flat :: _ :: groups :: _ :: mops :: _ ->
       let a = parse_app flat in
       let ap = parse_apro_tree tree in
